@@ -33,6 +33,10 @@ class DjangoModelWithoutDunderStrTransformer(
         if self.implements_dunder_str(original_node):
             return updated_node
 
+        # findings (and line includes/excludes) refer to the line of the class name
+        if not self.node_is_selected(original_node.name):
+            return updated_node
+
         self.report_change(original_node)
 
         new_body = updated_node.body.with_changes(
